@@ -1,5 +1,190 @@
 import Sentinel.Drv.Common
-/-! Driver for C06 (stub: replaced by the property's real driver) -/
+import Sentinel.Model.HotConc
+/-!
+Driver for C06.
+
+Op language (one op per line):
+
+* `load <rule>…` — `hotspot.ClearRules(); hotspot.LoadRules(rules)`; a rule is one token
+  `res;c|q;paramIndex;paramKey;threshold;paramsMaxCapacity;v=thr,v=thr…` (values: `i:<int>` an `int`,
+  `l:<int>` an `int64`, `s:<text>`, `b:0|1`, `nil`)
+* `flowblock <res>` — a flow rule with threshold 0 on `res` (every entry there is blocked by the flow slot)
+* `entry <id> <res> <val>… @key=val…` ⇒ `pass | block hot | block flow`
+* `exit <id>`
+* `args <id>` ⇒ the live entry's `Input.Args` (`none` if the entry is not live)
+
+Modes: `model` — the code-shaped model `Sentinel.HotConc` (LRU cells, first-touch, re-extraction at exit);
+`oracle` — judges the implementation's own trace against the property: the ledger `live_k(v)` is
+recomputed from the trace (entries answered `pass` with value `v` under rule `k`, not yet exited) and every
+`entry` answer must be `pass ⇔ ∀ concurrency rule k of the resource selecting a value v: live_k(v) < thr_k(v)`.
+-/
 namespace Sentinel.Drv.C06
-def run (_mode : String) : IO Unit := IO.eprintln "C06: driver not implemented"
+open Sentinel.HotConc Sentinel.Drv
+
+def parseVal? (s : String) : Option Val :=
+  if s == "nil" then some Val.nil
+  else if s.startsWith "i:" then (s.drop 2).toString.toInt?.map Val.int
+  else if s.startsWith "l:" then (s.drop 2).toString.toInt?.map Val.long
+  else if s.startsWith "s:" then some (Val.str (s.drop 2).toString)
+  else if s == "b:1" then some (Val.bool true)
+  else if s == "b:0" then some (Val.bool false)
+  else none
+
+def showVal : Val → String
+  | .nil => "nil"
+  | .int i => s!"i:{i}"
+  | .long i => s!"l:{i}"
+  | .str s => "s:" ++ s
+  | .bool b => if b then "b:1" else "b:0"
+
+def parseItems? (s : String) : Option (List (Val × Int)) :=
+  if s.isEmpty then some [] else
+  (s.splitOn ",").foldl (fun acc it => acc.bind fun xs =>
+    match it.splitOn "=" with
+    | [v, t] => match parseVal? v, t.toInt? with
+      | some v, some t => some (xs.filter (fun p => p.1 ≠ v) ++ [(v, t)])
+      | _, _ => none
+    | _ => none) (some [])
+
+def parseRule? (s : String) : Option Rule :=
+  match s.splitOn ";" with
+  | [res, kind, idx, key, thr, pmc, items] =>
+    match idx.toInt?, thr.toInt?, pmc.toInt?, parseItems? items with
+    | some idx, some thr, some pmc, some items =>
+      if kind == "c" || kind == "q" then
+        some { res := res, conc := kind == "c", idx := idx, key := key, thr := thr, pmc := pmc, items := items }
+      else none
+    | _, _, _, _ => none
+  | _ => none
+
+def parseRules? (ts : List String) : Option (List Rule) :=
+  ts.foldr (fun t acc => match parseRule? t, acc with
+    | some r, some rs => some (r :: rs)
+    | _, _ => none) (some [])
+
+/-- entry arguments: plain values are `WithArgs`, `@key=val` are attachments (a later key replaces an earlier one) -/
+def parseEntryArgs? (ts : List String) : Option (List Val × List (String × Val)) :=
+  ts.foldl (fun acc t => acc.bind fun (as, ats) =>
+    if t.startsWith "@" then
+      match (t.drop 1).toString.splitOn "=" with
+      | [k, v] => (parseVal? v).map fun v => (as, ats.filter (fun p => p.1 ≠ k) ++ [(k, v)])
+      | _ => none
+    else (parseVal? t).map fun v => (as ++ [v], ats)) (some ([], []))
+
+def showRes : Res → String
+  | .pass => "pass"
+  | .blockFlow => "block flow"
+  | .blockHot => "block hot"
+
+/-! ### model mode -/
+
+def stepModel (s : St) (ts : List String) (_ : String) : St × Option String :=
+  match ts with
+  | "load" :: rs => match parseRules? rs with
+    | some rules => (load s rules, none)
+    | none => (s, some "bad-op")
+  | ["flowblock", res] => (step s (.flowBlock res), none)
+  | "entry" :: id :: res :: rest => match parseEntryArgs? rest with
+    | some (as, ats) =>
+      if s.live.any (fun e => e.id == id) then (s, some "bad-op") else
+      let r := entry s id res as ats
+      (r.1, some (showRes r.2))
+    | none => (s, some "bad-op")
+  | ["exit", id] => (exit s id, none)
+  | ["args", id] => match s.live.find? (fun e => e.id == id) with
+    | some e => (s, some (showList (e.args.map showVal)))
+    | none => (s, some "none")
+  | _ => (s, some "bad-op")
+
+/-! ### oracle mode -/
+
+/-- one rule as the oracle sees it: the values it has been consulted for (`touched`) -/
+structure ORule where
+  rule : Rule
+  touched : List Val := []
+
+structure OLive where
+  id : String
+  res : String
+  args : List Val
+  atts : List (String × Val)
+
+structure OSt where
+  rules : List ORule := []
+  live : List OLive := []
+  fb : List String := []
+  over : List String := []      -- resources one of whose rules has seen more distinct values than its capacity
+  stale : List String := []     -- resources that had live entries when the rules were (re)loaded: no claim
+  bad : Bool := false
+
+/-- the ledger: live entries on the rule's resource whose selected value is `v` -/
+def liveCount (s : OSt) (r : Rule) (v : Val) : Nat :=
+  (s.live.filter fun e => e.res == r.res && extract r e.args e.atts == v).length
+
+/-- walks the concurrency rules of `res` in order.  Returns (claimed verdict is "block", every violated rule is a
+    first touch, rules updated with the values the code consults, resource overflowed) -/
+def judgeRules (s : OSt) (res : String) (as : List Val) (ats : List (String × Val)) :
+    List ORule → Bool → Bool × Bool × List ORule × Bool
+  | [], _ => (false, true, [], false)
+  | o :: os, stopped =>
+    let applies := o.rule.res == res && o.rule.conc
+    let v := if applies then extract o.rule as ats else Val.nil
+    if v = Val.nil then
+      let r := judgeRules s res as ats os stopped
+      (r.1, r.2.1, o :: r.2.2.1, r.2.2.2)
+    else
+      let viol := !decide ((liveCount s o.rule v : Int) < o.rule.thrOf v)
+      let fresh := !o.touched.contains v
+      -- the code consults this rule unless an earlier one has already blocked (`stopped`)
+      let o' : ORule := if stopped || !fresh then o else { o with touched := v :: o.touched }
+      let overflow := !stopped && decide (o.rule.cap < o'.touched.length)
+      let r := judgeRules s res as ats os (stopped || (viol && !fresh))
+      (viol || r.1, (!viol || fresh) && r.2.1, o' :: r.2.2.1, overflow || r.2.2.2)
+
+def stepOracle (s : OSt) (ts : List String) (line : String) : OSt × Option String :=
+  let res? := resPart line
+  match ts with
+  | "load" :: rs => match parseRules? rs with
+    | some rules =>
+      ({ s with rules := (rules.filter Rule.valid).map fun r => { rule := r },
+                over := [], stale := (s.live.map (·.res)).eraseDups }, none)
+    | none => (s, some "bad-op")
+  | ["flowblock", res] => ({ s with fb := res :: s.fb }, none)
+  | "entry" :: id :: res :: rest => match parseEntryArgs? rest, res? with
+    | some (as, ats), some got =>
+      if s.live.any (fun e => e.id == id) then (s, some "bad-op") else
+      let addLive (s : OSt) : OSt :=
+        if got == "pass" then { s with live := { id := id, res := res, args := as, atts := ats } :: s.live } else s
+      if s.fb.contains res then
+        (addLive s, some (if got == "block flow" then "ok" else "bad expected block flow"))
+      else
+        let j := judgeRules s res as ats s.rules false
+        let claim := if j.1 then "block hot" else "pass"
+        let wasOver := s.over.contains res
+        let s1 : OSt := { s with rules := if wasOver then s.rules else j.2.2.1,
+                                 over := if j.2.2.2 && !wasOver then res :: s.over else s.over }
+        let s2 := addLive s1
+        if got != "pass" && got != "block hot" then (s2, some ("bad unexpected result, claimed " ++ claim))
+        else if s.stale.contains res then (s2, some "?")
+        else if got == claim then (s2, some "ok")
+        else if wasOver then (s2, some "known:cell-evicted")
+        else if got == "pass" && j.2.1 then (s2, some "known:first-touch-unchecked")
+        else (s2, some ("bad claimed " ++ claim))
+    | _, _ => (s, some "bad-op")
+  | ["exit", id] => ({ s with live := s.live.filter fun e => !(e.id == id) }, none)
+  | ["args", id] => match res? with
+    | some got =>
+      let want := match s.live.find? (fun e => e.id == id) with
+        | some e => showList (e.args.map showVal)
+        | none => "none"
+      (s, some (if got == want then "ok" else "bad expected " ++ want))
+    | none => (s, some "bad-op")
+  | _ => (s, some "bad-op")
+
+def run (mode : String) : IO Unit :=
+  match mode with
+  | "model" => loop ({} : St) stepModel
+  | "oracle" => loop ({} : OSt) stepOracle
+  | _ => IO.eprintln s!"C06: unknown mode {mode}"
+
 end Sentinel.Drv.C06
